@@ -5,6 +5,7 @@ package main
 // callee) every engine builds on.  Nothing in /repo is executed.
 
 import (
+	"time"
 	"fmt"
 	"go/token"
 	"go/types"
@@ -106,6 +107,12 @@ func Load(cfg LoadConfig) (*Prog, error) {
 		Tests:   false,
 	}
 	pkgs, err := packages.Load(pc, "./...")
+	// a failing `go list` under memory or CPU pressure shows up as missing export data of standard
+	// packages ("no metadata for io"): that says nothing about the tree — load again before giving up
+	for attempt := 0; attempt < 3 && transientLoadFailure(pkgs, err); attempt++ {
+		time.Sleep(time.Duration(attempt+1) * 2 * time.Second)
+		pkgs, err = packages.Load(pc, "./...")
+	}
 	if err != nil {
 		return nil, fmt.Errorf("load: %w", err)
 	}
@@ -128,6 +135,10 @@ func Load(cfg LoadConfig) (*Prog, error) {
 			pc2 := *pc
 			pc2.ParseFile = pl.parseFile(cfg.Overlay)
 			pkgs2, err2 := packages.Load(&pc2, "./...")
+			for attempt := 0; attempt < 3 && transientLoadFailure(pkgs2, err2); attempt++ {
+				time.Sleep(time.Duration(attempt+1) * 2 * time.Second)
+				pkgs2, err2 = packages.Load(&pc2, "./...")
+			}
 			switch {
 			case err2 != nil:
 				inlineNotes = append(inlineNotes, "helper inlining abandoned: "+err2.Error())
@@ -501,4 +512,21 @@ func (p *Prog) ReachableSkip(skip func(ssa.CallInstruction) bool, roots ...*ssa.
 
 func (p *Prog) inModule(fn *ssa.Function) bool {
 	return fn != nil && fn.Pkg != nil && isModulePkg(fn.Pkg.Pkg) && fn.Blocks != nil
+}
+
+// transientLoadFailure: the loader itself failed (not the tree): an error of the driver, or "no
+// metadata for <std package>" / "could not import <std package>" diagnostics.
+func transientLoadFailure(pkgs []*packages.Package, err error) bool {
+	if err != nil {
+		return true
+	}
+	transient := false
+	packages.Visit(pkgs, nil, func(p *packages.Package) {
+		for _, e := range p.Errors {
+			if strings.Contains(e.Msg, "no metadata for") || e.Kind == packages.ListError && strings.Contains(e.Msg, "signal: killed") {
+				transient = true
+			}
+		}
+	})
+	return transient
 }
